@@ -8,35 +8,100 @@ import (
 
 // ---------------------------------------------------------------- CacheFacts.lean
 
-// evictExpr translates the eviction condition to a Lean Bool expression over `cap` and `len`.
-func (c *ctx) evictExpr(e ast.Expr, recv *ast.Ident) (string, bool) {
-	e = unparen(e)
-	b, ok := e.(*ast.BinaryExpr)
-	if !ok {
+// boolForm is a boolean formula in negation normal form: a conjunction / disjunction of
+// sub-formulas (op "&&" / "||", kids in source order) or a comparison atom `x cmp y`.
+type boolForm struct {
+	op   string // "&&", "||" or "" for an atom
+	kids []*boolForm
+	cmp  token.Token // atom: one of > >= == != (never < <=, see normCmp)
+	x, y ast.Expr    // atom operands
+}
+
+// negCmp is the comparison equivalent to the negation of the key.
+var negCmp = map[token.Token]token.Token{token.GTR: token.LEQ, token.LEQ: token.GTR, token.LSS: token.GEQ,
+	token.GEQ: token.LSS, token.EQL: token.NEQ, token.NEQ: token.EQL}
+
+// normCmp removes `<` / `<=` by swapping the operands: `a <= b` ≡ `b >= a`, `a < b` ≡ `b > a`.
+func normCmp(op token.Token, x, y ast.Expr) (token.Token, ast.Expr, ast.Expr) {
+	switch op {
+	case token.LSS:
+		return token.GTR, y, x
+	case token.LEQ:
+		return token.GEQ, y, x
+	}
+	return op, x, y
+}
+
+// boolNNF reads e (built from ! && || parentheses and the six comparisons) as a formula and returns the
+// normal form of e — of !e when neg — with negations pushed into the atoms (De Morgan, negCmp) and the
+// atoms oriented by normCmp.  The order of conjuncts/disjuncts is the source order.  nil = not understood.
+func boolNNF(e ast.Expr, neg bool) *boolForm {
+	switch x := unparen(e).(type) {
+	case *ast.UnaryExpr:
+		if x.Op == token.NOT {
+			return boolNNF(x.X, !neg)
+		}
+	case *ast.BinaryExpr:
+		switch x.Op {
+		case token.LAND, token.LOR:
+			a, b := boolNNF(x.X, neg), boolNNF(x.Y, neg)
+			if a == nil || b == nil {
+				return nil
+			}
+			op := x.Op
+			if neg { // De Morgan
+				op = map[token.Token]token.Token{token.LAND: token.LOR, token.LOR: token.LAND}[op]
+			}
+			return &boolForm{op: op.String(), kids: []*boolForm{a, b}}
+		case token.GTR, token.GEQ, token.LSS, token.LEQ, token.EQL, token.NEQ:
+			op := x.Op
+			if neg {
+				op = negCmp[op]
+			}
+			f := &boolForm{}
+			f.cmp, f.x, f.y = normCmp(op, x.X, x.Y)
+			return f
+		}
+	}
+	return nil
+}
+
+// evictExpr renders the (normalised) eviction condition as a Lean Bool expression over `cap` and `len`.
+func (c *ctx) evictExpr(f *boolForm, recv *ast.Ident) (string, bool) {
+	if f == nil {
 		return "", false
 	}
-	switch b.Op {
-	case token.LAND, token.LOR:
-		x, ok1 := c.evictExpr(b.X, recv)
-		y, ok2 := c.evictExpr(b.Y, recv)
+	if f.op != "" {
+		x, ok1 := c.evictExpr(f.kids[0], recv)
+		y, ok2 := c.evictExpr(f.kids[1], recv)
 		if !ok1 || !ok2 {
 			return "", false
 		}
-		op := "&&"
-		if b.Op == token.LOR {
-			op = "||"
-		}
-		return "(" + x + " " + op + " " + y + ")", true
-	case token.GTR, token.GEQ, token.LSS, token.LEQ, token.EQL, token.NEQ:
-		x, ok1 := c.evictTerm(b.X, recv)
-		y, ok2 := c.evictTerm(b.Y, recv)
-		if !ok1 || !ok2 {
-			return "", false
-		}
-		op := map[token.Token]string{token.GTR: ">", token.GEQ: "≥", token.LSS: "<", token.LEQ: "≤", token.EQL: "=", token.NEQ: "≠"}[b.Op]
-		return "(decide (" + x + " " + op + " " + y + "))", true
+		return "(" + x + " " + f.op + " " + y + ")", true
 	}
-	return "", false
+	x, ok1 := c.evictTerm(f.x, recv)
+	y, ok2 := c.evictTerm(f.y, recv)
+	if !ok1 || !ok2 {
+		return "", false
+	}
+	op := map[token.Token]string{token.GTR: ">", token.GEQ: "≥", token.EQL: "=", token.NEQ: "≠"}[f.cmp]
+	return "(decide (" + x + " " + op + " " + y + "))", true
+}
+
+// boolFormSrc renders the normalised condition as Go source (operands as written in the source).
+func (c *ctx) boolFormSrc(f *boolForm) string {
+	if f.op == "" {
+		return onesp(c.src(f.x)) + " " + f.cmp.String() + " " + onesp(c.src(f.y))
+	}
+	parts := []string{}
+	for _, k := range f.kids {
+		s := c.boolFormSrc(k)
+		if k.op == "||" && f.op == "&&" {
+			s = "(" + s + ")"
+		}
+		parts = append(parts, s)
+	}
+	return parts[0] + " " + f.op + " " + parts[1]
 }
 
 func (c *ctx) evictTerm(e ast.Expr, recv *ast.Ident) (string, bool) {
@@ -138,6 +203,22 @@ func (c *ctx) cacheFacts() *leanFile {
 			return false
 		}
 
+		// resets: the block assigns a map literal to c.m at its top level (the reset branch).
+		resets := func(b *ast.BlockStmt) bool {
+			for _, s := range b.List {
+				if as, ok := s.(*ast.AssignStmt); ok && as.Tok == token.ASSIGN && len(as.Lhs) == 1 && len(as.Rhs) == 1 {
+					if f, ok := c.recvField(as.Lhs[0], recv); ok && f == "m" {
+						if lit, ok := unparen(as.Rhs[0]).(*ast.CompositeLit); ok {
+							if _, isMap := lit.Type.(*ast.MapType); isMap {
+								return true
+							}
+						}
+					}
+				}
+			}
+			return false
+		}
+
 		for _, s := range fd.Body.List {
 			tok := unknown(s)
 			switch x := s.(type) {
@@ -178,13 +259,6 @@ func (c *ctx) cacheFacts() *leanFile {
 					}
 				case writesM(x):
 					tok = "if-evict"
-					condSrc = onesp(c.src(x.Cond))
-					if s, ok := c.evictExpr(x.Cond, recv); ok {
-						condLean, condKnown = s, true
-						if len(s) > 2 && s[0] == '(' && s[1] == '(' { // drop the outer parentheses of a conjunction
-							condLean = s[1 : len(s)-1]
-						}
-					}
 					evictThen = branch(x.Body)
 					switch e := x.Else.(type) {
 					case *ast.BlockStmt:
@@ -192,6 +266,21 @@ func (c *ctx) cacheFacts() *leanFile {
 					case nil:
 					default:
 						evictElse = []string{unknown(e)}
+					}
+					// The condition is stated for the reset branch (the one that replaces c.m by a fresh
+					// map): `if !C { insert } else { reset }` is read as `if C { reset } else { insert }`.
+					elseBlock, _ := x.Else.(*ast.BlockStmt)
+					negate := elseBlock != nil && resets(elseBlock) && !resets(x.Body)
+					condSrc = onesp(c.src(x.Cond))
+					f := boolNNF(x.Cond, negate)
+					if s, ok := c.evictExpr(f, recv); ok {
+						condLean, condKnown, condSrc = s, true, c.boolFormSrc(f)
+						if len(s) > 2 && s[0] == '(' && s[1] == '(' { // drop the outer parentheses of a conjunction
+							condLean = s[1 : len(s)-1]
+						}
+						if negate {
+							evictThen, evictElse = evictElse, evictThen
+						}
 					}
 				}
 			case *ast.ReturnStmt:
